@@ -210,8 +210,8 @@ Proof.
   destruct (pp_loop_fires layer presses ch possible (cv_active c) since rf Hposs Hen Hsame Hnd Hroom presses [] _ Hne eq_refl J0)
     as (st & El & Hcase).
   rewrite El. cbn [bind].
-  assert (Hfin : forall c2 (b : bool) q (P : chv2 -> Prop), P c2 -> (forall q', P (set_cv_queue q' c2)) ->
-            exists c', (if b then Ok (set_cv_queue q c2) else Ok c2) = Ok c' /\ P c').
+  assert (Hfin : forall c2 (b : bool) q (P : chv2 -> Prop), P c2 -> (forall q', P (set_cv_queue q' (set_cv_until 0 c2))) ->
+            exists c', (if b then Ok (set_cv_queue q (set_cv_until 0 c2)) else Ok c2) = Ok c' /\ P c').
   { intros c2 b q P H1 H2. destruct b; eexists; (split; [reflexivity|]); [apply H2|exact H1]. }
   destruct Hcase as [(Hd & Hacc & Hact & Hpc)|(Hd & Hacc & coord & Hact)].
   - (* the loop did not activate anything *)
@@ -237,15 +237,14 @@ Proof.
         destruct (Nat.eqb (length (pp_cands st)) SMOL_Q_LEN); [apply Hsub; exact Hcin|].
         destruct (pp_prev_count st) as [n|]; [|congruence]. destruct Hpc as [_ Hc]. rewrite Hc in Hcin.
         apply Hsub. apply in_firstn_in in Hcin. apply filter_In in Hcin. apply Hcin.
-      * intros q'. left. exists cch, since, coord, rf. cbn [set_cv_queue set_cv_active cv_active]. rewrite ?Ha1. split; [reflexivity|].
+      * intros q'. left. exists cch, since, coord, rf. cbn [set_cv_queue set_cv_until set_cv_active cv_active]. rewrite ?Ha1. split; [reflexivity|].
         split; [|split; [exact Hcen|exact Hcsame]].
         destruct (Nat.eqb (length (pp_cands st)) SMOL_Q_LEN); [apply Hsub; exact Hcin|].
         destruct (pp_prev_count st) as [n|]; [|congruence]. destruct Hpc as [_ Hc]. rewrite Hc in Hcin.
         apply Hsub. apply in_firstn_in in Hcin. apply filter_In in Hcin. apply Hcin.
     + cbn [bind]. apply orb_false_elim in Ego. destruct Ego as [Eu Erf]. apply N.eqb_neq in Eu.
-      apply Hfin.
-      * right. split; [exact Hact|]. split; [exact Erf|exact Eu].
-      * intros q'. right. split; [exact Hact|]. split; [exact Erf|exact Eu].
+      rewrite Hact, Nat.ltb_irrefl. eexists. split; [reflexivity|].
+      right. split; [exact Hact|]. split; [exact Erf|exact Eu].
   - (* the loop activated the chord *)
     assert (Hres : forall c2, cv_active c2 = cv_active (pp_c st) ->
               exists cch since0 coord0 rf', cv_active c2 = cv_active c ++ [get_active_chord cch since0 coord0 rf'] /\
